@@ -268,6 +268,11 @@ func c04Judge(r *R, peer *rawPeer, b *stubBackend, env *stubEnv, poison []string
 			sent[o.Cmd.Tag]++
 			order = append(order, o.Cmd.Tag)
 		}
+		if o.LitWait >= 20*time.Second {
+			// simulated time only advances when every goroutine is blocked: the server sat on the
+			// announcement until its own read timeout fired
+			r.Violate("literal-announcement-unanswered", o.Cmd.Name, "command %s: the peer announced a synchronising literal and waited; the server sent neither a continuation request nor a tagged refusal (RFC 9051 4.3) for %v of simulated time, i.e. until its own read timeout (outcome: %s)", describeCmd(o.Cmd), o.LitWait, o.describe())
+		}
 		if o.Sent && o.Reply == nil && o.TimedOut {
 			r.Violate("no-tagged-reply", o.Cmd.Name, "command %s was completely sent, the connection stayed open, and no tagged reply arrived within 10 simulated minutes", describeCmd(o.Cmd))
 		}
